@@ -20,11 +20,13 @@ def v_dec(I, name, bits=72):
     return [DecRun(I.ctx.fresh_bv(name, bits), bits)]
 
 def v_float(I, name):
-    """plain decimal text of any non-negative finite f64"""
+    """plain decimal text (at most 40 bytes) of any non-negative finite f64"""
     f = z3.Real('%s!%d' % (name, I.ctx.nfresh)); I.ctx.nfresh += 1
     I.ctx.assume(f >= 0)
     I.ctx.assume(f <= z3.RealVal(2) ** 1000)
-    return [FloatLit(f)]
+    ln = I.ctx.fresh_bv(name + '_len', 64)
+    I.ctx.assume(z3.And(z3.UGE(ln, 1), z3.ULE(ln, 40)))          # the text is at most 40 bytes long (stated in the bounds)
+    return [FloatLit(f, ln)]
 
 def v_sym(I, name, n):
     out = []
